@@ -247,7 +247,8 @@ fn malformed_block(g: &mut Gen, kind: &str) -> (BlockSpec, &'static str) {
     let carrier: &'static str = match kind {
         "sort-direction" => {
             words(&mut b);
-            let v = *g.rng.pick(&["ascending", "up", "asc,desc", "sorted", "descending", "a", "true"]);
+            // padded spellings are not trimmed: they are unknown directions as well
+            let v = *g.rng.pick(&["ascending", "up", "asc,desc", "sorted", "descending", "a", "true", " desc", "asc ", "\tDesc  ", " asc "]);
             b.attrs.push(("keep-sorted".into(), v.into()));
             "keep-sorted"
         }
@@ -741,7 +742,7 @@ fn c14(seed: u64, thorough: bool) -> Scenario {
     }
     // sometimes plant a malformed rule that the flags may or may not switch off
     if g.rng.chance(1, 4) {
-        let kind = *g.rng.pick(&["sort-direction", "line-count", "regex-line-pattern", "lua-script-missing", "ai-empty-condition"]);
+        let kind = *g.rng.pick(&["sort-direction", "line-count", "regex-line-pattern", "lua-script-missing", "ai-empty-condition", "severity-unknown", "severity-unknown"]);
         let (b, _) = malformed_block(&mut g, kind);
         let n = g.world.files.len();
         let fi = g.rng.below(n);
@@ -950,9 +951,13 @@ fn c15(seed: u64, thorough: bool) -> Scenario {
     let mut make_glob = |g: &mut Gen| -> String {
         let files = &g.world.files;
         let f = &files[g.rng.below(files.len())];
-        let ext = f.path.rsplit('.').next().unwrap().to_string();
         let comps: Vec<&str> = f.path.split('/').collect();
         let name = comps.last().unwrap().to_string();
+        // a file name without a dot (`BUILD`) has no extension: only the name-based forms apply
+        let Some((_, ext)) = name.rsplit_once('.') else {
+            return if g.rng.chance(1, 2) { format!("**/{name}") } else { f.path.clone() };
+        };
+        let ext = ext.to_string();
         match g.rng.below(10) {
             // globs that name a *directory* (they match no file below it: a glob matches whole paths)
             7 if comps.len() > 1 => format!("**/{}", comps[comps.len() - 2]),
@@ -1061,6 +1066,20 @@ fn c15(seed: u64, thorough: bool) -> Scenario {
 fn diff_mode_for_async_worlds(g: &mut Gen) {
     g.world.stdin = StdinSpec::Piped;
     let n = g.world.files.len();
+    // positional globs next to the diff: a file the diff names is examined whether or not a glob
+    // matches it, and a file only a glob matches is examined in full
+    if g.rng.chance(1, 3) {
+        let f = g.rng.below(n);
+        let path = g.world.files[f].path.clone();
+        let name = path.rsplit('/').next().unwrap().to_string();
+        let plain = !name.contains(['[', '{', '\\']);
+        let gl = match (g.rng.below(3), name.rsplit_once('.')) {
+            (0, Some((_, ext))) => format!("**/*.{ext}"),
+            (1, _) if plain => format!("**/{name}"),
+            _ => "**/*.none".to_string(),
+        };
+        g.world.args.globs.push(gl);
+    }
     for i in 0..n {
         match g.rng.below(8) {
             0..=4 => g.world.files[i].diff = FileDiff::Added,
